@@ -276,6 +276,47 @@ func (a *analysis) summarize() *result {
 			res.entry[f.name] = sortedLocks(f.entry)
 		}
 	}
+	// ---- rule T: which functions write (transitively) a field of which shared type
+	writes := map[*fn]map[*types.Named]bool{}
+	for _, f := range a.order {
+		writes[f] = map[*types.Named]bool{}
+		for _, s := range f.sites {
+			if s.kind == sAccess && s.write && s.contentsOf == nil {
+				writes[f][a.fieldOwner[s.field]] = true
+			}
+		}
+	}
+	for changed := true; changed; {
+		changed = false
+		for _, f := range a.order {
+			for _, s := range f.sites {
+				if s.kind != sCall {
+					continue
+				}
+				for _, g := range s.callees {
+					for t := range writes[g] {
+						if !writes[f][t] {
+							writes[f][t] = true
+							changed = true
+						}
+					}
+				}
+			}
+		}
+	}
+	for _, f := range a.order {
+		var keep []site
+		for _, s := range f.sites {
+			if s.kind == sAccess && s.contentsOf != nil {
+				s.write = writes[s.contentsOf][s.contentsRcv]
+				if !s.write && !s.handsOut {
+					continue // e.g. a counter read: nothing of the contents is handed out
+				}
+			}
+			keep = append(keep, s)
+		}
+		f.sites = keep
+	}
 	// ---- field accesses
 	var fvars []*types.Var
 	seenF := map[*types.Var]bool{}
@@ -456,6 +497,11 @@ func (a *analysis) emit(res *result) string {
 	p("      Element writes (m[k] = v, s[i] = v, delete, copy) count as writes of the field holding the map/slice; a write to a\n")
 	p("      sub-field of a struct-valued field counts as a write of that field; &x.f counts as a read (except as an argument of\n")
 	p("      sync/atomic, which makes the field `atomic`); fields whose type comes from sync or sync/atomic are not listed.\n")
+	p("   T  contents of a table: a method call x.f.M() where f is a field of a listed shared type O holding the self-locking\n")
+	p("      store routingtable.RoutingTable is an access to the pseudo-field O.contents: a write when M (transitively) writes a\n")
+	p("      field of the store, a read when M returns anything but basic values / error, i.e. hands out references to stored\n")
+	p("      routes and paths (Dump, Get, LPM, GetLonger); otherwise (GetRouteCount) not listed.  The store's own lock orders the\n")
+	p("      trie; the owner's lock is what orders the completion of an insertion (path fields written after the insert) with readers.\n")
 	p("   X  escape rule (constructor-local accesses are not listed): a local variable initialised by a composite literal,\n")
 	p("      new(T), `var v T`, or a call of a constructor (a function all of whose returns yield such a local, a literal,\n")
 	p("      another constructor call or nil) is unpublished until its first textual occurrence other than (i) as the base of a\n")
